@@ -437,3 +437,26 @@ def r10(ctx, R):
             R.check(ok, f'{fn.name} :: the offsets returned with the weights are the ones used (line {s.lineno})', w, 'the offsets handed in are rebound to the returned (sorted) ones, or never read again', found)
     if n < 4:
         raise AnalysisError(f'C18.R10: only {n} callers of get_finite_difference_stencil found')
+
+
+@rule('C18', 'C18.R11', 'every boundary parameter that is taken out of the per-side dictionary is USED: val, reduce and neumann_bc_order are read after they were popped (a closure built with the interior order instead of neumann_bc_order silently ignores the option)', floor=3)
+def r11(ctx, R):
+    repo = ctx.repo
+    fn = repo.func(PH, 'get_finite_difference_matrix')
+    w = f'{PH}:get_finite_difference_matrix'
+    R.fn(w)
+    n = 0
+    for s in walk_no_nested(fn):
+        if isinstance(s, ast.Assign) and len(s.targets) == 1 and isinstance(s.targets[0], ast.Name) and isinstance(s.value, ast.Call) and isinstance(s.value.func, ast.Attribute) and s.value.func.attr == 'pop' and s.value.args and isinstance(s.value.args[0], ast.Constant):
+            n += 1
+            name = s.targets[0].id
+            uses = [x for x in ast.walk(fn) if isinstance(x, ast.Name) and x.id == name and isinstance(x.ctx, ast.Load) and x.lineno > s.lineno]
+            # following one renaming (nOrder = neumann_bc_order)
+            for a in walk_no_nested(fn):
+                if isinstance(a, ast.Assign) and isinstance(a.value, ast.Name) and a.value.id == name and isinstance(a.targets[0], ast.Name):
+                    al = a.targets[0].id
+                    uses = [u for u in uses if u is not a.value] + [x for x in ast.walk(fn) if isinstance(x, ast.Name) and x.id == al and isinstance(x.ctx, ast.Load) and x.lineno > a.lineno]
+            real = [u for u in uses]
+            R.check(bool(real), f'get_finite_difference_matrix :: the option {s.value.args[0].value!r} (popped into `{name}`) is used', w, 'at least one later read', f'{len(real)} read(s)')
+    if n < 3:
+        raise AnalysisError(f'C18.R11: only {n} popped boundary options found')
